@@ -81,8 +81,23 @@ def serializer_loop_count(ctx, rep):
             if isinstance(node, ast.For) and isinstance(node.iter, ast.Call) and isinstance(node.iter.func, ast.Name) and node.iter.func.id == "range":
                 rng = node
                 break
+        # polarity of the started test on the path to this visit
+        started_true = None
+        node_ = v
+        while node_ is not None:
+            par_ = fl.parent.get(id(node_))
+            if isinstance(par_, ast.If) and any(isinstance(m, ast.Attribute) and m.attr == "started" for m in ast.walk(par_.test)):
+                neg_ = isinstance(par_.test, ast.UnaryOp) and isinstance(par_.test.op, ast.Not)
+                in_body = any(x is node_ for b_ in par_.body for x in ast.walk(b_)) or node_ in par_.body
+                started_true = (in_body != neg_)
+                break
+            node_ = par_
         if not reads_started:
             problems.append((v, "is emitted whether or not the trace has started (at least once even for a count of zero)"))
+        elif rng is not None and started_true is False:
+            problems.append((v, "is repeated `range(count)` times on the branch where the trace has NOT started, and emitted once where it has"))
+        elif rng is None and started_true is True:
+            problems.append((v, "is emitted exactly once although the trace has started (the loop count is ignored)"))
         elif rng is not None:
             a = rng.iter.args
             exact = len(a) == 1 and isinstance(a[0], ast.Attribute) and a[0].attr == "iterations" and isinstance(a[0].value, ast.Name) and a[0].value.id == loop
@@ -215,6 +230,31 @@ def run(ctx, rep):
         else:
             rep.undecided("C03.3", cons, "loop over the trace serialiser not recognised", ms.loc())
 
+    # the state vector (and the probabilities computed from it) that is REPORTED is the accumulated one
+    cons_sv = construct_of(ms, "reported-state")
+    rets = [st for st in iter_stmts(ms.body) if isinstance(st, ast.Return) and st.value is not None]
+    ctor = None
+    for cs in T.callsites(ms):
+        if cs.kind == "constructor" and isinstance(cs.node, ast.Call) and cs.classes and cs.classes[0].endswith("Subcircuit"):
+            ctor = cs.node
+    if ctor is None:
+        rep.undecided("C03.3", cons_sv, "construction of the reported subcircuit not found", ms.loc())
+    else:
+        kw = {k.arg: k.value for k in ctor.keywords if k.arg}
+        # the accumulator: the name subscript-assigned inside the gate loop (vec[i] += ..)
+        acc = {n.target.value.id for n in walk_no_nested(ms.node) if isinstance(n, ast.AugAssign) and isinstance(n.target, ast.Subscript) and isinstance(n.target.value, ast.Name)}
+        sv = kw.get("state_vector")
+        pr = kw.get("probabilities")
+        sv_ok = sv is not None and bool(names_in(sv) & acc)
+        pr_ok = False
+        if pr is not None:
+            ids_, roots_ = fl.depends(pr)
+            pr_ok = any(names_in(r_) & acc for r_ in [pr] + list(roots_))
+        if sv_ok and pr_ok:
+            rep.ok("C03.3", cons_sv, f"state_vector={ast.unparse(sv)} and probabilities derived from it are handed to the result", f"{ms.path}:{ctor.lineno}")
+        else:
+            rep.violation("C03.3", cons_sv, "the subcircuit result is built without the accumulated state vector" if not sv_ok else "the reported probabilities are not computed from the accumulated state vector", f"{ms.path}:{ctor.lineno}")
+
     # ------------------------------------------------------------ C03.4
     rep.rule("C03.4", "the backend only receives circuits that passed expand_subcircuits, fill_in_let and expand_macros", floor=1)
     run_f = ix.func(RUN)
@@ -243,7 +283,8 @@ def run(ctx, rep):
             rep.ok("C03.4", cons, "backend(expand_macros(fill_in_let(expand_subcircuits(circuit))))", loc)
     # gates without a unitary are skipped, not applied
     cons = construct_of(ms, "no-unitary-skipped")
-    skip = any(isinstance(st, ast.If) and any(isinstance(n, ast.Attribute) and n.attr == "ideal_unitary" for n in ast.walk(st.test)) and any(isinstance(c, ast.Constant) and c.value is None for c in ast.walk(st.test)) and any(isinstance(s, ast.Continue) for s in st.body) for st in iter_stmts(ms.body))
+    skip = any(isinstance(st, ast.If) and any(isinstance(n, ast.Attribute) and n.attr == "ideal_unitary" for n in ast.walk(st.test)) and any(isinstance(c, ast.Constant) and c.value is None for c in ast.walk(st.test)) and any(isinstance(s, ast.Continue) for s in st.body)
+               and isinstance(st.test, ast.Compare) and isinstance(st.test.ops[0], ast.Is) for st in iter_stmts(ms.body))
     if skip:
         rep.ok("C03.4", cons, "`ideal_unitary is None` -> continue (idle gates and gates without a unitary leave the state unchanged)", ms.loc())
     else:
